@@ -14,6 +14,7 @@ CFG = dict(
          "the model's file. Non-trivial = a file with a header and at least one record was judged; distinct by input line.",
     nontrivial=["ljh22-records", "ljh3-records", "off-records", "ljh22-100+", "ljh3-100+", "off-100+"],
     jobs=seeds(1, 4),
+    lean_files=["C05", "ComposeFile", "ComposeEndToEnd"],
     trusted_base=["Go int32/int64 conversions and wrap-around as transcribed (twos / mod 2^n); float32(x) conversions are done by Go and "
                   "travel as bit patterns",
                   "encoding/json (number and string formatting), fmt %e/%.6f/%d and time.Format are not modelled: the header text the "
@@ -37,7 +38,11 @@ MANIFEST = dict(
          "after stop is header ++ encodings of the records accepted while active and unpaused, in order, and does not exist when there "
          "were none (C05_file_is_header_plus_records, C05_file_length, C05_body_parses_back_*); the LJH 2.2 text header is "
          "self-delimiting and every documented key reads back the channel's value (C05_header_fields), the OFF projector/basis block "
-         "reads back the matrices (off_matrix_block_roundtrip). On every run the real ljh.Writer, ljh.Writer3, off.Writer, "
+         "reads back the matrices (off_matrix_block_roundtrip). Composed with the trigger-pipeline model (C01/C02) and the Abaco ingest "
+         "model (C03): every record the source publishes for a channel not in edge-multi mode has the configured length whatever the data "
+         "(runOps_chan_len), so the LJH 2.2 writer accepts every one and, for ANY run of blocks inside a writing period, the file body reads "
+         "back as exactly the channel's published records in order (pipeline_to_ljh22_file, pipeline_to_ljh3_file); from packets: "
+         "abaco_to_ljh22_file. On every run the real ljh.Writer, ljh.Writer3, off.Writer, "
          "DataPublisher.PublishData and AnySource.WriteControl write files that are parsed by the same doc-derived parsers, judged by the "
          "same oracle and compared byte-for-byte (body) / field-wise (header) with the model.",
     note="Trusted: Lean 4.33 kernel (axioms propext, Classical.choice, Quot.sound only; audited every run); the hand-written model is tied "
@@ -76,4 +81,8 @@ THEOREMS = [
     ("DastardV.Props.C05", "DastardV.C05.C05_header_fields"),
     ("DastardV.Props.C05", "DastardV.C05.C05_header_lengths"),
     ("DastardV.Props.C05", "DastardV.C05.off_matrix_block_roundtrip"),
+    ("DastardV.Lemmas.ComposeFile", "DastardV.Compose.runOps_chan_len"),
+    ("DastardV.Lemmas.ComposeFile", "DastardV.Compose.pipeline_to_ljh22_file"),
+    ("DastardV.Lemmas.ComposeFile", "DastardV.Compose.pipeline_to_ljh3_file"),
+    ("DastardV.Lemmas.ComposeEndToEnd", "DastardV.Compose.abaco_to_ljh22_file"),
 ]
